@@ -5,3 +5,8 @@ pub assume_specification<T, P: FnOnce(&T) -> bool>[Option::<T>::filter](o: Optio
     ensures
         o is None ==> r is None,
         o is Some ==> ((r is None && p.ensures((&o->0,), false)) || (r == o && p.ensures((&o->0,), true)));
+
+// `str::contains`: result unconstrained (no string reasoning in Verus); offered so that an edit which starts using it
+// stays decidable - whatever depends on its value must hold for both outcomes.
+#[verifier::allow(undeclared_external_trait)]
+pub assume_specification<P: core::str::pattern::Pattern>[str::contains::<P>](s: &str, pat: P) -> (r: bool);
